@@ -115,6 +115,36 @@ def build_coherence(chk, name, model, enc, pos0):
                       dict(reproduced=True, observed=dict(node=k, cached=have, recomputed=want, others=[b[0] for b in bad[1:6]]), note="concrete comparison on the built model"))
 
 
+def targeted_total(chk, name):
+    """auto-update off, inputs assigned, then only the total is brought up to date by name (Model.update("_model_log_prob")): the model's
+    log-probability must be the joint log-density of the values now stored -- compared with the full update through the interface, which the
+    obligations above tie to the TFP densities"""
+    import liesel.goose as gs
+    model = M.FAMILY[name]()
+    m2 = M.FAMILY[name]()
+    iface = gs.LieselInterface(model)
+    st0 = model.state
+    full2 = m2.state
+    vals0 = M.values_of(st0)
+    pos0 = {k: jnp.asarray(vals0[k]) for k in M.strong_names(model) if np.asarray(vals0[k]).dtype.kind == "f" and not M.is_concrete_name(k)}
+
+    def f(pos):
+        m2.state = full2
+        m2.auto_update = False
+        for k, v in pos.items():
+            m2.nodes[k].value = v
+        m2.update("_model_log_prob")
+        got = m2.log_prob
+        m2.auto_update = True
+        return dict(got=got, want=M.values_of(iface.update_state(pos, st0))["_model_log_prob"])
+    pre = "tt" + "".join(ch for ch in name if ch.isalnum())
+    sym = symlike(pos0, pre)
+    enc = chk.note_enc(Enc(f"auto-update off, assign, update('_model_log_prob')[{name}]", f, (pos0,), (sym,)))
+    m2.state = full2
+    return [Obligation(f"[{name}] with auto-update off, after assigning the inputs and Model.update('_model_log_prob'), log_prob = joint log-density of the stored values (= the fully updated model's)", [enc],
+                       lambda V: ([], all_eq(V.out["got"], V.out["want"])), signature=f"{name}:targeted-total")], enc
+
+
 def inplace_assignment(chk):
     """concrete history: a mutable (numpy) value is edited in place and assigned back -- the assignment is an assignment like any other,
     the totals must be those of the new values"""
@@ -159,6 +189,11 @@ def main():
         build_coherence(chk, name, model, enc, pos0)
         chk.validated_points += enc.validate(chk.rng, npoints=1)
     inplace_assignment(chk)
+    for name in [n for n in M.FAMILY if "weak" in n or n == "regression(transformed scale)"]:
+        res = chk.guarded(f"{name}:targeted-total:trace", f"[{name}] tracing the by-name update of the total", targeted_total, chk, name)
+        if res:
+            obs += res[0]
+            chk.validated_points += res[1].validate(chk.rng, npoints=1)
     # per-observation vs summed storage: same totals
     e1, e2 = encs["regression(transformed scale)"][1], encs["regression(per_obs=False)"][1]
 
